@@ -18,7 +18,7 @@ RULE = ("(a) schedules (source-line granularity) of {accept thread submitting 2-
 ASSUMPTIONS = ["scheduling points are source lines of Pool/Worker methods and the job body; CPython can also switch between bytecodes of one line",
                "a job accepted just before a racing close() may be dropped (the statement's 'starts no further job'); only runs without close require every accepted job to run",
                "a refusal is illegitimate only if accepted-minus-completed(notify_done returned) < THREADPOOL_SIZE at process() entry"]
-REQUIRED_REACH = ["schedules_explored", "jobs_executed", "refusals_seen", "closes_completed", "socket_clients_served", "socket_clients_refused", "unix_socket_runs", "proxy_retries_after_refusal"]
+REQUIRED_REACH = ["schedules_explored", "jobs_executed", "refusals_seen", "closes_completed", "socket_clients_served", "socket_clients_refused", "unix_socket_runs", "proxy_retries_after_refusal", "start_faults_injected"]
 SHARD_TIMEOUT = {"quick": 240, "thorough": 3000}
 
 
@@ -40,6 +40,8 @@ class Mon:
         self.started_after_close = []
         self.violations = []
         self.pool = None
+        self.grow_starts = 0       # Worker.start() calls made by process() (not by the pool's constructor)
+        self.faulted = []          # jobs whose process() failed because the injected thread-start fault hit it
 
     def worker_started(self, w):
         with self.lock:
@@ -83,6 +85,14 @@ def controlled_run(P, cfg, choices, strategy):
     S.Worker.run = sc.wrap_thread_entry(run_wrapped, "worker")
 
     def start(self):
+        if shared["pool"] is not None:
+            with mon.lock:
+                mon.grow_starts += 1
+                hit = mon.grow_starts == cfg.get("start_fault")
+            if hit:
+                # the operating system refuses one more thread: what Thread.start() raises then. The job is lost (its caller sees the
+                # error); everything the pool does AFTERWARDS must still be right
+                raise RuntimeError("can't start new thread")
         mon.worker_started(self)
         sc.start_child(orig_start, self)
     S.Worker.start = start
@@ -137,6 +147,12 @@ def controlled_run(P, cfg, choices, strategy):
             except S.PoolError:
                 with mon.lock:
                     mon.refused.append((j, -1))       # pool already closed by the racing closer: a legitimate refusal
+            except RuntimeError as x:
+                if "can't start new thread" not in str(x):
+                    raise
+                with mon.lock:
+                    mon.refused.append((j, -2))       # the injected thread-start fault: this job is lost, its submitter was told
+                    mon.faulted.append(j)
         shared["submitted"].set()
         if closer == "same":
             pool.close()
@@ -183,6 +199,8 @@ def judge(cfg, res, mon, rec, pay):
         started = list(mon.started)
         retired, exited = set(mon.retired), set(mon.exited)
     rec.count("jobs_executed", sum(execs.values()))
+    if mon.faulted:
+        rec.count("start_faults_injected", len(mon.faulted))
     rec.count("refusals_seen", len(refused))
     refused_ids = {j for j, _ in refused}
     for j in range(cfg["jobs"]):
@@ -392,6 +410,11 @@ def plan(tier, seed):
         # grow - retire - grow again needs four jobs: a few such configurations also in the quick tier
         for size, mn in ((2, 1), (3, 1), (3, 2)):
             cfgs.append({"size": size, "min": mn, "jobs": 4, "closer": "none"})
+    # a worker thread that cannot be started (Thread.start raises) when the pool grows: that job is lost, but the pool's books, later
+    # refusals and close() must be as right as before
+    for size, mn, jobs, closer, k in (((2, 1, 4, "none", 1), (3, 1, 4, "none", 2), (3, 2, 4, "none", 1), (2, 1, 3, "same", 1)) if tier == "quick" else
+                                      [(s_, m_, j_, c_, k_) for s_ in (2, 3) for m_ in range(1, s_) for j_ in (3, 4, 5) for c_ in ("none", "same", "other") for k_ in (1, 2)]):
+        cfgs.append({"size": size, "min": mn, "jobs": jobs, "closer": closer, "start_fault": k})
     for i, cfg in enumerate(cfgs):
         deep = tier == "quick" and cfg["jobs"] == 4
         shards.append({"kind": "sched", "cfg": cfg, "bound": (2 if deep else 1) if tier == "quick" else 2, "nrandom": (400 if deep else 40) if tier == "quick" else 1500,
